@@ -813,6 +813,13 @@ def c18(run):
                 jobs.append(dict(name=name, text=text, args=o, env=env, en=en, fd=f, cwd=cwd,
                                  want=("scanner", "header", "tables") if en not in ("stdout", "file-only", "stdout-named") else ("scanner",),
                                  stdout_scanner=("named" if en == "stdout-named" else en == "stdout")))
+    # text buffers of the generator at every length modulo their growth step (512 bytes): a %top block padded byte by byte over one growth step (thorough: four),
+    # under a clean and two dirty heaps (what lies behind a buffer that is exactly full must not reach the output)
+    # (the first growth steps behave alike only from the second step on: the sweep covers every length between two of them)
+    for pad in (range(520, 1040) if q else range(0, 2100)):
+        text = b"%top{\n/* " + b"p" * pad + b" */\n%}\n%option noyywrap\n%%\na ;\n%%\n"
+        for en, env, f, cwd in ENVS[:3]:
+            jobs.append(dict(name="top-pad-%d" % pad, text=text, args=[], env=env, en=en, fd=f, cwd=cwd, want=("scanner", "header"), stdout_scanner=False))
     import concurrent.futures as cf
     def one(j):
         o, wd = G.run_flex(j["fd"], j["text"], j["args"], want=j["want"], env=j["env"], cwd=j["cwd"], stdout_scanner=j["stdout_scanner"],
